@@ -8,6 +8,7 @@ import (
 	"strconv"
 
 	"verif/engines/events"
+	"verif/engines/history"
 	"verif/engines/stream"
 	"verif/simkit"
 )
@@ -21,6 +22,7 @@ func plainEngines() map[string]simkit.Engine {
 	add("events", events.Run)
 	add("stream-json", stream.JSON)
 	add("stream-html", stream.HTML)
+	add("history", history.Run)
 	return m
 }
 
@@ -92,6 +94,13 @@ func checkCmd(args []string) int {
 		c.Components = map[string][]string{"real": realLib, "simulated": {"io.Reader behind ReadHtml (delivery schedule, truncation, read errors, content corruption as the tag-soup source)"}}
 		c.RequiredProbes = []string{"judged-inputs", "not-judged-no-leading-doctype", "read-error", "truncation", "delivery:one-byte"}
 		c.Phases = []simkit.Phase{{Label: "stream-html", Bin: bin, Engine: "stream-html", Runs: pick(6000, 400000), MaxSeconds: secs(60, 1500), DetSample: int(pick(24, 256)), Samples: 3}}
+	case "C13":
+		c.Level = "exploration"
+		c.Rule = "one evaluation = one simulated call history over 1-3 shared documents (XML/JSON/HTML through the real readers): 3-24 operations drawn from BuildExpr, Exec with With-options or caller-owned maps, ExecAsNodeset whose result slice the caller keeps, deriving sub-slices (with spare capacity) and passing them back as variables, verbatim repeats, Unmarshal, GetCursorString, rebuilds; user callbacks fail, panic, hand out caller-held slices or re-enter Exec; every query is compared with the same query in a fresh isolated world; distinct = distinct operation list; non-trivial = >= 3 queries or >= 3 held slices"
+		c.Assumptions = []string{"no XPath reference evaluator: results are compared with the implementation itself in a fresh isolated world (same document bytes, expression string, bindings, context-node path)", "only public observations are used (Cursor API, exported Grammar methods, the caller's own maps and slices)", "the rebuild-determinism oracle (I4) replays probabilistically"}
+		c.Components = map[string][]string{"real": realLib, "simulated": {"the caller (order, repetition and aliasing of public API calls)", "user callbacks (errors, panics, re-entrancy, handing out held slices)"}}
+		c.RequiredProbes = []string{"held-slice-with-spare-capacity", "held-slice-in-reverse-order", "variable-is-held-slice-with-spare-capacity", "callback-reentered-Exec", "callback-reentered-same-compiled-expression", "compiled-expression-reused", "bindings-via-caller-owned-maps", "callback-error", "callback-panic", "repeated-operation", "rebuild-determinism-check", "callback-returned-caller-held-slice"}
+		c.Phases = []simkit.Phase{{Label: "history", Bin: bin, Engine: "history", Runs: pick(10000, 400000), MaxSeconds: secs(70, 1500), DetSample: int(pick(16, 128)), Samples: 3}}
 	case "C10":
 		c.Level = "exploration"
 		c.Rule = "one evaluation = one scripted event history (contract-conforming: element start, then namespaces, then attributes, then children, end; surplus end events only where depth is 0) pulled by store.CreateInMemory through the Parser seam and compared with a stack-machine reference model, plus the stack-ceiling child processes (one evaluation each); distinct = distinct event history; non-trivial = history has >= 4 events"
